@@ -50,6 +50,10 @@ struct Step {
 	waiters: Option<u32>,
 	#[serde(default)]
 	settle: bool,
+	/// let every other task run until nothing is left to do at this instant before the call (replayed
+	/// specification behaviours: the environment acts only when the task is at rest)
+	#[serde(default)]
+	at_rest: bool,
 	#[serde(default)]
 	delay: Option<u64>,
 }
@@ -137,6 +141,11 @@ async fn run_script(script: Script, paused: bool) -> Vec<Ev> {
 		}
 		if step.settle {
 			tokio::task::yield_now().await;
+		}
+		if step.at_rest {
+			for _ in 0..24 {
+				tokio::task::yield_now().await;
+			}
 		}
 
 		let sig = step.sig.as_deref().map(parse_signal);
